@@ -94,7 +94,7 @@ def run_values(mod, tier, values, excl):
 # ---------------------------------------------------------------------------------------------
 # shrinking (tape level): keep a candidate only if the same violation class recurs
 
-def shrink(mod, tier, values, klass, excl, max_exec=400, max_s=30.0):
+def shrink(mod, tier, values, klass, excl, max_exec=300, max_s=12.0):
     t0 = time.time()
     n_exec = [0]
     best = list(values)
